@@ -895,17 +895,19 @@ pub unsafe extern "C" fn SFileEnumFiles(
         }
     };
 
-    // Get archive
-    let mut archives = ARCHIVES.lock().unwrap();
-    let Some(archive_handle) = archives.get_mut(&archive_id) else {
-        set_last_error(ERROR_INVALID_HANDLE);
-        return false;
-    };
+    // List files. The ARCHIVES lock is released before the callback runs: the
+    // callback is user code and may call back into this API (which locks ARCHIVES).
+    let file_list = {
+        let mut archives = ARCHIVES.lock().unwrap();
+        let Some(archive_handle) = archives.get_mut(&archive_id) else {
+            set_last_error(ERROR_INVALID_HANDLE);
+            return false;
+        };
 
-    // List files
-    let file_list = match archive_handle {
-        ArchiveHandle::ReadOnly { archive, .. } => archive.list(),
-        ArchiveHandle::Mutable { archive, .. } => archive.list(),
+        match archive_handle {
+            ArchiveHandle::ReadOnly { archive, .. } => archive.list(),
+            ArchiveHandle::Mutable { archive, .. } => archive.list(),
+        }
     };
 
     match file_list {
